@@ -3,6 +3,8 @@ import re
 def _classify(op, a, b):
     """op = the request line, a = the implementation's claim, b = the independent reader's verdict"""
     if op.startswith("c02 part"):
+        if b.startswith("ok render="):
+            return ("part-is-not-a-rendering-of-the-writer-model", b[:300])
         return ("part-not-wellformed-xml", b)
     if op.startswith("c02 bridge"):
         return ("cell-bridge-differs", b[:400])
@@ -36,7 +38,7 @@ def _classify(op, a, b):
     return ("view-differs", "")
 
 PROP = {
-    "thm": "Umya.Thm.C02",
+    "thm": ["Umya.Thm.C02", "Umya.Thm.C02Bytes"],
     "harness": "c02",
     "level": "translation_validation",
     "stateful": True,
@@ -77,7 +79,9 @@ PROP = {
                         "C02_table_only_grows", "C02_si_decodes", "C02_sst_decodes", "C02_cell_decodes", "C02_cell_written",
                         "C02_cell_kind_partial", "C02_cell_decodes_plain_partial", "C02_cell_uncached_formula_fails", "C02_cell_lazy_fails", "C02_cell_kind_normalised",
                         "C02_sheet_cells_decode", "C02_book_cells_decode", "C02_book_cell_decodes", "C02_book_written",
-                        "C02_chardata_lexed", "C02_cell_position"],
+                        "C02_chardata_lexed", "C02_cell_position",
+                        "C02_writer_matches_source", "C02_bytes_start_tag", "C02_bytes_end_tag", "C02_bytes_decl", "C02_bytes_parse", "C02_bytes_normal_form",
+                        "C02_bytes_parse_tree", "C02_bytes_parse_tree_norm", "C02_cell_bytes_decode", "C02_cell_bytes_decode_default", "C02_si_bytes_decode"],
     "rule": "case = one workbook (generated from a per-case seed, or a corpus file re-saved) written with the standard or the light writer; every part is one request; "
             "the `decode` request compares violations (must be none) and the decoded view; the final `bridge` request carries the cell / <si> facts scanned from the real parts "
             "and (generated workbooks) the in-memory cells, and must answer ok. non-trivial = every part / decode / bridge request; distinct = distinct request line",
@@ -85,12 +89,16 @@ PROP = {
                                   "rendering of written facts as element trees Umya/Model/CellNode.lean (checked against the real parse by `c02 bridge` on every run)",
                                   "the writer model Umya/Model/CellXml.lean is the code's (C01's correspondence stream; re-checked on C02's workbooks by `c02 bridge` (c))",
                                   "harness/src/c01.rs::package_facts (non-unescaping scanner of the real parts)"],
-    "assumptions": [],
+    "assumptions": ["C02_bytes_parse: element and attribute names are XML Names, attribute names distinct per element, attribute values and texts consist of XML 1.0 Chars "
+                    "(decidable WF; evaluated by the driver on every claimed part)"],
     "partial_clauses": ["whole-package well-formedness and decode equality are validated per file, not proved for all workbooks; proved for all inputs: the cell clause at the level of the "
                         "writer model's facts (C02_cell_decodes … C02_book_cell_decodes), the escaping channels, sheetData order, rId pairing",
                         "cells: shared / array formulas, inline strings (<is>), cm/vm/ph attributes are outside the modelled fragment (counted as outside-fragment by the bridge; validated per file by decode)",
                         "cells: the <row> wrapper, fillRefs / expandShared of decodeSheet and the style table behind the s index are not part of the cell theorems (validated per file)",
-                        "cells: the serialisation of tags by quick-xml (bytes -> element tree) is checked per file (tree equality in `c02 bridge`), not proved",
+                        "tag-level serialisation (characters -> element tree) is PROVED for the model Umya/Model/XmlWrite.lean of writer/driver.rs + quick-xml's Writer (C02_bytes_parse, any tree); "
+                        "that the real parts are renderings of that model is checked per written part (`c02 part … w` -> render=same, character for character) and, for the structure of the six helper "
+                        "functions, by the translator (C02_writer_matches_source); quick-xml's write_event / push_attribute themselves are modelled from their source, not translated; "
+                        "VML parts and parts a loaded workbook carries verbatim are not claimed (counted as render.skipped.*)",
                         "drawings, charts, tables, pivot tables, VML bodies, theme, docProps: XML well-formedness / content type / relationships only",
                         "macro payload (vbaProject.bin) only via the corpus .xlsm files"],
     "technique": "independent XML/OPC/SpreadsheetML reader executed in Lean on every written package (translation validation) + Lean theorems on the escaping channels, sheetData order, rId pairing "
